@@ -126,7 +126,7 @@ def check(rep, ctx):
                                   f"are compared by wall clock, ignoring fold -- for 02:30 (fold=0) and 02:10 (fold=1) Europe/Stockholm on "
                                   f"2021-10-31 the earlier instant wins; the maximum must be taken over the millisecond values",
                           file=file, line=fn.node.lineno, instance=f"{case}|max-order")
-            if t is not None:
+            if t is not None and contains(t, "timestamp"):
                 time_terms.append((name, t, fn))
         # framing
         contents = [e for e in p.effects if e[0] == "getvalue" and e[1].kind == "local"]
@@ -159,8 +159,14 @@ def check(rep, ctx):
     rfn = WR["fn"]
     rec, bt, bo = WR["rec"].term, WR["bt"].term, WR["bo"].term
     rrets = [p for p in WR["paths"] if p.outcome == "return"]
-    rep.check(R_R, len(rrets) == 4, construct=rfn.ref, stmt=f"{len(rrets)} returning paths",
-              message=f"expected 4 returning paths (key/value null or not), found {len(rrets)}", file=file, line=rfn.node.lineno, instance="paths")
+    def _null_case(p_):
+        return (any(f[0] == ("is", ("attr", rec, "key"), ("k", None)) and f[1] for f in p_.facts),
+                any(f[0] == ("is", ("attr", rec, "value"), ("k", None)) and f[1] for f in p_.facts))
+    cases_seen = {_null_case(p_) for p_ in rrets}
+    rep.check(R_R, len(cases_seen) == 4, construct=rfn.ref, stmt=f"{len(rrets)} returning paths, null cases {sorted(cases_seen)}",
+              message=f"a record with key/value null or not has four cases; returning paths exist for {sorted(cases_seen)} only",
+              file=file, line=rfn.node.lineno, instance="paths")
+    seen_cases = set()
     for p in rrets:
         key_null = any(f[0] == ("is", ("attr", rec, "key"), ("k", None)) and f[1] for f in p.facts)
         val_null = any(f[0] == ("is", ("attr", rec, "value"), ("k", None)) and f[1] for f in p.facts)
@@ -211,8 +217,11 @@ def check(rep, ctx):
                 problems.append(f"record length prefix is {show_term(lv)[:120]}, expected the zig-zag varint size of exactly the staged record")
             if not (isinstance(cv, tuple) and cv[0] == "contents" and cv[2] > last_idx):
                 problems.append("the bytes appended are not the complete staged record")
-        rep.check(R_R, not problems, construct=rfn.ref, stmt=case, message=f"{case}: " + "; ".join(problems), file=file,
-                  line=rfn.node.lineno, instance=case)
+        # several paths per case (a helper that forks, e.g. on rounding) are all checked; the instance is counted once per case
+        if problems or case not in seen_cases:
+            rep.check(R_R, not problems, construct=rfn.ref, stmt=case, message=f"{case}: " + "; ".join(problems), file=file,
+                      line=rfn.node.lineno, instance=case)
+        seen_cases.add(case)
     # header writer
     hdr = RA.I.sym_of_type(("param", "header"), RA.cls("RecordHeader"))
     hp, hfn = RA.write_paths("write_header", [hdr])
